@@ -20,6 +20,7 @@ func init() {
 			"R06.2 also: both entry points decide the content type before the response format. " +
 			"R06.1 also: the gate is skipped only when HasBody answered false (or an earlier stage refused the request), in both entry points. " +
 			"R06.3 also: the matched route (whose Consumer the gate fills once) is allocated per lookup. " +
+			"R06.3 also: MatchedRoute.Consumer is written by the content-type gates only (or as route.Consumers[parsed media type]). " +
 			"NOT decided: which header strings mime.ParseMediaType accepts; what a consumer does with the bytes.",
 		Assumptions: []string{"mime.ParseMediaType lower-cases the media type and strips parameters as documented", "swag.ContainsStringsCI is a case-insensitive membership test"},
 		Run:         runC06,
